@@ -4,26 +4,28 @@ package main
 // function of Seed, the knobs and the invocation key, unless overridden in Over) and the scheduling
 // parameters of the background work.
 type Case struct {
-	Query   string          `json:"query"`          // used when Tree is empty
-	Op      string          `json:"op,omitempty"`   // "" (query) | mutation
-	Tree    []Sel           `json:"tree,omitempty"` // structured form of the selection set (shrinkable)
-	Seed    uint64          `json:"seed"`
-	PAsync  int             `json:"p_async"`            // % of invocations resolved through Go or Batch
-	PBatch  int             `json:"p_batch"`            // % of the asynchronous ones that use Batch
-	PErr    int             `json:"p_err"`              // % failing
-	PNull   int             `json:"p_null"`             // % returning null
-	PGate   int             `json:"p_gate"`             // % of Go tasks held by a harness gate (others: seeded delay)
-	PPre    int             `json:"p_pre"`              // % of gated tasks released *before* the idle handler is entered
-	RoundK  int             `json:"round_k"`            // at most this many gated tasks are released per idle round (>=1)
-	Procs   int             `json:"procs"`              // GOMAXPROCS
-	MinN    int             `json:"min_n,omitempty"`    // … from MinN..MaxN when set
-	MaxN    int             `json:"max_n,omitempty"`    // list lengths / edge counts are drawn from 0..MaxN (default 3)
-	Overlap bool            `json:"overlap,omitempty"`  // two overlapping operations on one WebSocket connection (overlap.go)
-	OvEvent string          `json:"ov_event,omitempty"` // helper of the gated subscription-event field: batch | go
-	OvQuery string          `json:"ov_query,omitempty"` // helpers of the overlapping query: batch | go | both
-	WS      bool            `json:"ws,omitempty"`       // serve over the graphql-ws WebSocket subprotocol (graphqlws.go)
-	Events  int             `json:"events,omitempty"`   // WS subscriptions: number of source events
-	Over    map[string]Spec `json:"over,omitempty"`
+	Query      string          `json:"query"`          // used when Tree is empty
+	Op         string          `json:"op,omitempty"`   // "" (query) | mutation
+	Tree       []Sel           `json:"tree,omitempty"` // structured form of the selection set (shrinkable)
+	Seed       uint64          `json:"seed"`
+	PAsync     int             `json:"p_async"`               // % of invocations resolved through Go or Batch
+	PBatch     int             `json:"p_batch"`               // % of the asynchronous ones that use Batch
+	PErr       int             `json:"p_err"`                 // % failing
+	PNull      int             `json:"p_null"`                // % returning null
+	PGate      int             `json:"p_gate"`                // % of Go tasks held by a harness gate (others: seeded delay)
+	PPre       int             `json:"p_pre"`                 // % of gated tasks released *before* the idle handler is entered
+	RoundK     int             `json:"round_k"`               // at most this many gated tasks are released per idle round (>=1)
+	Procs      int             `json:"procs"`                 // GOMAXPROCS
+	MinN       int             `json:"min_n,omitempty"`       // … from MinN..MaxN when set
+	MaxN       int             `json:"max_n,omitempty"`       // list lengths / edge counts are drawn from 0..MaxN (default 3)
+	Overlap    bool            `json:"overlap,omitempty"`     // two overlapping operations on one WebSocket connection (overlap.go)
+	OvEvent    string          `json:"ov_event,omitempty"`    // helper of the gated subscription-event field: batch | go
+	OvQuery    string          `json:"ov_query,omitempty"`    // helpers of the overlapping query: batch | go | both
+	OneBatcher bool            `json:"one_batcher,omitempty"` // every Batch invocation goes to batch resolver 0
+	NoNil      bool            `json:"no_nil,omitempty"`      // lists have no null elements
+	WS         bool            `json:"ws,omitempty"`          // serve over the graphql-ws WebSocket subprotocol (graphqlws.go)
+	Events     int             `json:"events,omitempty"`      // WS subscriptions: number of source events
+	Over       map[string]Spec `json:"over,omitempty"`
 	// WatchdogMs: the request is declared deadlocked after this long (0 = default 20 s).
 	WatchdogMs int    `json:"watchdog_ms,omitempty"`
 	Note       string `json:"note,omitempty"`
